@@ -129,13 +129,19 @@ class Pipe:
         self.cuts: list[int] | None = None
         self.streams: list = []  # stream objects (layers) created on this pipe
         self.writes_after: list = []
+        self.eof_reads = 0
+        self.truncate_at: int | None = None  # server->client stream ends (EOF) after this many bytes
         self.noseg_until = 0  # server->client offset below which reads are not segmented (SOCKS negotiation)
 
     # ---- server side API used by peers
     def server_send(self, data: bytes) -> None:
-        if not data or self.client_closed or self.broken:
-            if data:
-                self.sent += b""  # dropped
+        if not data or self.client_closed or self.broken or self.eof:
+            return
+        if self.truncate_at is not None and len(self.sent) + len(data) >= self.truncate_at:
+            data = data[: max(0, self.truncate_at - len(self.sent))]
+            self.inbound += data
+            self.sent += data
+            self.eof = True  # the connection ends here
             return
         self.inbound += data
         self.sent += data
@@ -170,6 +176,7 @@ class World:
         self.seg_i = 0
         self.seg_everything = False  # also segment negotiation replies (C15 only)
         self.cuts = {int(k): sorted(set(v)) for k, v in (cuts or {}).items()}  # pipe ordinal -> absolute offsets
+        self.truncate: dict[int, int] = {}  # pipe ordinal -> server stream length after which the peer closes
         self.agate = None  # async gate: await agate(kind, pipe, info) -> value
         self.sgate = None  # sync gate (controlled threads)
         self.on_op = None  # callback(op) after every completed op (oracles evaluated at op boundaries)
@@ -242,6 +249,10 @@ class World:
         op["pipe"] = pipe.id
         if pipe.id in self.cuts:
             pipe.cuts = self.cuts[pipe.id]
+        if pipe.id in self.truncate:
+            pipe.truncate_at = self.truncate[pipe.id]
+            if pipe.truncate_at == 0:
+                pipe.eof = True
         pipe.peer = self.peer_factory(self, pipe)
         self._done(op)
         return pipe
@@ -315,7 +326,10 @@ class World:
             return data
         if pipe.eof or pipe.broken:
             op["n"] = 0
+            pipe.eof_reads += 1
             self._done(op)
+            if pipe.eof_reads > 200:
+                raise HarnessHang(f"pipe {pipe.id}: {pipe.eof_reads} consecutive reads at EOF - the caller spins on a closed connection")
             return b""
         # nothing pending and the peer has not closed: a real read would block
         if timeout is not None:
